@@ -9,7 +9,9 @@
    encodable texts, every structure found is typed, has plain distinct feature names, arrays hold lists, annotations carry
    a sofa of this CAS and offsets inside its text), 0 < c_next_id (the id generator hands out positive ids; replaces the
    former premise stableb, now a theorem: ReachSpec.find_all_fs_stable), ids_distinctb, refs_wfb, typed_jsonb (JsonWf.v),
-   initial_view_in, same_view_orderb; doc_ok_json (the written document is well-formed: a boolean on the document alone) is a
+   initial_view_in, same_view_orderb.  ids_distinctb speaks about the structures the document lists, each once: the sofas, the
+   byte arrays holding sofa data (an array may serve several sofas and may be indexed or referenced as well: d1bc860 writes it
+   once, in front of the first sofa referring to it) and what the traversal finds besides; doc_ok_json (the written document is well-formed: a boolean on the document alone) is a
    premise of the older `_partial` statements only and a theorem since Round 3 (C02_json_doc_ok). *)
 From Cassis Require Import Base Heap Schema Canon Reach JsonDoc Json JsonProofs JsonProofs2 JsonLoadProofs JsonLex CorrC02.
 From Cassis Require Import JsonWf JsonDocOk JsonRoundtrip JsonResave.
@@ -163,6 +165,39 @@ Theorem C02_json_roundtrip : forall L s mode c d c',
 Proof. exact json_roundtrip_wf. Qed.
 Print Assumptions C02_json_roundtrip.
 
+(* D59 / D60: a byte array that holds the data of a sofa -- of several sofas, indexed in a view, referenced by a feature -- is one
+   structure.  The writer lists it once (C02_json_doc_ok above demands every %ID once; C04_json_entries says where), the
+   reader makes ONE object per entry that is not a sofa, also for the array it parses ahead of its turn for a sofa: `load_made`
+   is the list of objects made, by the id they were made under; every holder of an id takes its object from the id-keyed dict *)
+Theorem C02_load_one_object_per_entry : forall L s d cc es,
+  doc_ok_json L s d = true -> denote_json L s d = Ok cc -> fs_entries d = Ok es ->
+  exists made, load_made L s d = Ok made /\ NoDup made /\ Permutation.Permutation made (map fst (filter not_sofa es)).
+Proof. exact load_json_one_object_per_entry. Qed.
+Print Assumptions C02_load_one_object_per_entry.
+Theorem C02_json_roundtrip_objects : forall L s mode c d c' es,
+  lex_ok L -> save_json L s mode c = Ok (d, c') ->
+  wf_jsonb s c' = true -> ids_distinctb s c' = true -> refs_wfb s c' = true -> typed_jsonb s c' = true -> 0 < c_next_id c ->
+  fs_entries d = Ok es ->
+  exists made, load_made L s d = Ok made /\ NoDup made /\ Permutation.Permutation made (map fst (filter not_sofa es)).
+Proof. exact json_roundtrip_objects. Qed.
+Print Assumptions C02_json_roundtrip_objects.
+
+(* regression (d1bc860): the old views loop / traversal loop wrote a shared, indexed sofa byte array three times under one %ID *)
+Theorem C02_old_writer_lists_array_again_refuted :
+  exists s c d c', save_json_old std_lex s MNone c = Ok (d, c') /\
+    wf_jsonb s c' = true /\ ids_distinctb s c' = true /\ refs_wfb s c' = true /\ typed_jsonb s c' = true /\ 0 < c_next_id c /\
+    (match fs_entries d with Ok es => map fst es | _ => [] end) = [32; 1; 32; 2; 40; 3; 32] /\
+    doc_ids_distinctb d = false /\ doc_ok_json std_lex s d = false.
+Proof. exact old_writer_lists_array_again_refuted. Qed.
+Print Assumptions C02_old_writer_lists_array_again_refuted.
+(* regression (d94ad6a): the old second pass made a second object for an array fetched ahead -- sharing lost, content by id equal *)
+Theorem C02_old_reader_second_object_refuted :
+  exists s d, doc_ok_json std_lex s d = true /\
+    load_made_old std_lex s d = Ok [32; 40; 32; 40] /\ load_made std_lex s d = Ok [32; 40] /\
+    load_json_old std_lex s d = load_json std_lex s d.
+Proof. exact old_reader_second_object_refuted. Qed.
+Print Assumptions C02_old_reader_second_object_refuted.
+
 Theorem C02_std_lex_ok : lex_ok std_lex.
 Proof. exact std_lex_ok. Qed.
 Print Assumptions C02_std_lex_ok.
@@ -249,7 +284,7 @@ Definition ex_case : case :=
     (24%Z, mkCfs "a.c.T1" [("f0", CNull)]);
     (32%Z, mkCfs "uima.cas.ByteArray" [("elements", CColl "" [(CInt 255%Z)])]);
     (41%Z, mkCfs "uima.cas.IntegerArray" [("elements", CColl "" [])])])
-   None.
+   None true.
 Example C02_premises_hold :
   let s := full_schema (c_user ex_case) in
   match save_json std_lex s MMinimal (c_cas ex_case) with
@@ -282,3 +317,19 @@ Example C02_resave_premises_hold :
   | _ => False
   end.
 Proof. vm_compute. repeat split; reflexivity. Qed.
+
+(* non-vacuity with sharing: the byte array 5 holds the data of two sofas and is indexed in a view, the id-less array 6 holds the
+   data of a third sofa; all premises hold, the document lists the ids 32 1 2 40 3 (each once), the reader makes the objects 32
+   and 40 once and returns the content of the CAS *)
+Example C02_shared_array_premises_hold :
+  match save_json std_lex builtin_schema MNone shared_cas with
+  | Ok (d, c') =>
+      wf_jsonb builtin_schema c' = true /\ ids_distinctb builtin_schema c' = true /\ refs_wfb builtin_schema c' = true /\
+      typed_jsonb builtin_schema c' = true /\ initial_view_in c' = true /\
+      doc_ids_distinctb d = true /\ doc_ok_json std_lex builtin_schema d = true /\
+      option_map (fun es => map fst es) (match fs_entries d with Ok es => Some es | _ => None end) = Some [32; 1; 2; 40; 3] /\
+      load_made std_lex builtin_schema d = Ok [32; 40] /\
+      load_json std_lex builtin_schema d = canon_json builtin_schema c'
+  | _ => False
+  end.
+Proof. exact shared_cas_ok. Qed.
